@@ -268,6 +268,13 @@ def VF.update (isZero : V → Bool) (f : VF V) (s : Spec V) : M (VF V) :=
   | .error e => .error e
   | .ok a => .ok { f with data := a }
 
+/-- `field.array = val` for ANY value the dispatcher of `_as_array` knows — also a dictionary over
+subregions: the setter converts once (`self._array = self._as_array(val, …)`) -/
+def VF.setSpec (isZero : V → Bool) (f : VF V) (s : Spec V) : M (VF V) :=
+  match asArray isZero s f.mesh f.nvdim with
+  | .error e => .error e
+  | .ok a => .ok { f with data := a }
+
 /-- what the object holds after an attempted assignment: exceptions are raised before
 `self._array` is rebound -/
 def VF.after (f : VF V) (r : M (VF V)) : VF V :=
@@ -281,12 +288,15 @@ inductive Assign (V : Type) where
   | set (l : Leaf V)
   /-- `field.update_field_values(val)` -/
   | upd (s : Spec V)
+  /-- `field.array = val` with any specification (also a dictionary) -/
+  | setS (s : Spec V)
 
 /-- the field object after one (accepted or rejected) assignment -/
 def VF.step (isZero : V → Bool) (f : VF V) (op : Assign V) : VF V :=
   match op with
   | .set l => f.after (f.setArray isZero l)
   | .upd s => f.after (f.update isZero s)
+  | .setS s => f.after (f.setSpec isZero s)
 
 /-- the field object after a sequence of assignments, each one accepted or rejected -/
 def VF.run (isZero : V → Bool) (f : VF V) (ops : List (Assign V)) : VF V := ops.foldl (VF.step isZero) f
@@ -305,6 +315,170 @@ def VF.comp (isZero : V → Bool) (f : VF V) (label : String) : M (VF V) :=
 
 /-- `Field.__iter__`: `for point in self.mesh: yield self(point)` -/
 def VF.iter (f : VF V) : List (M (List V)) := f.mesh.iter.map f.call
+
+end
+
+/-! ### a field as value, computed with the closed formula of the source cell
+
+Driver efficiency for source fields with thousands of cells (the nearest-centre scan of `asLeaf` is
+quadratic in the source size).  `Lemmas/C02Fast.lean` proves that both conversions give the same
+array whenever `fieldFastOk` holds. -/
+
+/-- both meshes satisfy the mesh invariant, have the same number of dimensions, and the source region
+contains the target region exactly -/
+def fieldFastOk (src : VF V) (m : Mesh) : Bool :=
+  m.invB && src.mesh.invB && decide (src.mesh.ndim = m.ndim) &&
+    allLt m.ndim fun a =>
+      decide (src.mesh.region.lo a ≤ m.region.lo a) && decide (m.region.hi a ≤ src.mesh.region.hi a)
+
+/-- the `.field` case of `asLeaf` with the source cell `floor((centre − src.pmin) / src.cell)` per axis -/
+def asLeafFieldFast (src : VF V) (m : Mesh) (nv : Nat) : M (NDA V) :=
+  if !src.mesh.region.containsReg m.region then .error .value
+  else if src.nvdim ≠ nv then .error .value
+  else if m.region.dims ≠ src.mesh.region.dims then .error .key
+  else .ok ⟨m.n ++ [src.nvdim],
+            fun j => src.data.get ((tab m.ndim fun a =>
+              src.mesh.indexAx a (m.centreAx a (j.dropLast.getD a 0 : Nat))) ++ [j.getLastD 0])⟩
+
+/-! ### value types: which kind of array `_as_array` returns
+
+`dtype` is what the caller asked for (`Field(…, dtype=…)`, kept in `self.dtype`; `none` = not
+requested).  `vk` is the kind of the VALUE as NumPy sees it (`np.asarray(val).dtype`: a Python
+`bool`/`int`/`float`/`complex`, the dtype of an array, the dtype of a source field's array).  The
+four kinds are ordered by safe casting. -/
+
+inductive Kind where
+  | bool | int | float | complex
+  deriving DecidableEq, Repr, Inhabited
+
+def Kind.rank : Kind → Nat
+  | .bool => 0 | .int => 1 | .float => 2 | .complex => 3
+
+/-- Python's `max(a, b)` on NumPy dtypes (`b` if `b > a` else `a`; `>` = "can be cast safely from,
+and different") -/
+def Kind.pmax (a b : Kind) : Kind := if a.rank < b.rank then b else a
+
+/-- kind of the array each overload of `_as_array` returns for a leaf -/
+def leafKind (dtype : Option Kind) (vk : Kind) (l : Leaf V) (m : Mesh) (nv : Nat) : Kind :=
+  match l with
+  | .bad => dtype.getD .float                 -- (raises)
+  | .scalar _ =>                               -- `dtype = dtype or max(np.asarray(val).dtype, np.float64); np.full(…, dtype=dtype)`
+    match dtype with
+    | some k => k
+    | none => Kind.pmax vk .float
+  | .arr a =>
+    if nv = 1 ∧ a.shape = m.n then             -- `np.expand_dims(np.array(val, dtype=dtype), axis=-1)`
+      match dtype with
+      | some k => k
+      | none => vk
+    else
+      match dtype with
+      | some k => k
+      | none => Kind.pmax vk .float
+  | .func _ => dtype.getD .float              -- `np.empty((*mesh.n, nvdim), dtype=dtype)`
+  | .field _ =>                                -- `value if dtype is None else np.array(value, dtype=dtype)`
+    match dtype with
+    | none => vk
+    | some k => k
+
+/-- kind of the array `_as_array` returns (dictionaries: `dtype = dtype or np.float64`, whatever the
+kinds of the entries) — this is what the `array` setter stores -/
+def specKind (dtype : Option Kind) (vk : Kind) (s : Spec V) (m : Mesh) (nv : Nat) : Kind :=
+  match s with
+  | .leaf l => leafKind dtype vk l m nv
+  | .dict _ _ => dtype.getD .float
+
+/-- kind of the array after `update_field_values` / the constructor: the first conversion's result
+(an array of shape `(*n, nvdim)` of kind `specKind …`) is converted once more by the setter -/
+def updKind [Inhabited V] (dtype : Option Kind) (vk : Kind) (s : Spec V) (m : Mesh) (nv : Nat) : Kind :=
+  leafKind dtype (specKind dtype vk s m nv) (Leaf.arr (NDA.const (m.n ++ [nv]) (default : V))) m nv
+
+/-! ### ownership: every conversion returns a NEW array
+
+A session holds array buffers (`store`, addressed by position) and field objects pointing to
+their `_array` buffer.  Buffers that no field points to are the caller's own arrays.  Assignments
+allocate; in-place writes (`arr[j] = v`, `field.array[j] = v`) change one buffer. -/
+
+structure Obj where
+  mesh : Mesh
+  nvdim : Nat
+  vdims : Option (List String)
+  /-- address of `_array` -/
+  addr : Nat
+
+structure Sess (V : Type) where
+  store : List (NDA V)
+  objs : List Obj
+
+/-- where the assigned value comes from -/
+inductive Src (V : Type) where
+  /-- another field object of the session -/
+  | obj (j : Nat)
+  /-- an array of the session (the caller's, or some field's `.array`) -/
+  | buf (b : Nat)
+  /-- a value that owns no array: number, function, dictionary of such -/
+  | pure (s : Spec V)
+
+inductive Stmt (V : Type) where
+  /-- `objs[i].array = src` -/
+  | set (i : Nat) (src : Src V)
+  /-- `objs[i].update_field_values(src)` -/
+  | upd (i : Nat) (src : Src V)
+  /-- `objs.append(Field(objs[i].mesh, nvdim=objs[i].nvdim, value=src, vdims=objs[i].vdims))` -/
+  | new (i : Nat) (src : Src V)
+  /-- `store[b][j] = v` in place -/
+  | poke (b : Nat) (j : List Nat) (v : V)
+  /-- `store[b][...] = v` in place -/
+  | fill (b : Nat) (v : V)
+
+section
+variable [Inhabited V]
+
+def Sess.buf (st : Sess V) (b : Nat) : NDA V := st.store.getD b (NDA.const [] default)
+
+def Sess.obj (st : Sess V) (i : Nat) : Obj := st.objs.getD i ⟨default, 0, none, 0⟩
+
+/-- field object `i` as a value: its array is the buffer it points to -/
+def Sess.field (st : Sess V) (i : Nat) : VF V :=
+  ⟨(st.obj i).mesh, (st.obj i).nvdim, st.buf (st.obj i).addr, (st.obj i).vdims⟩
+
+/-- the specification a source stands for, read from the store NOW -/
+def Sess.spec (st : Sess V) : Src V → Spec V
+  | .obj j => .leaf (.field (st.field j))
+  | .buf b => .leaf (.arr (st.buf b))
+  | .pure s => s
+
+/-- `a[j] = v` -/
+def pokeNDA (a : NDA V) (j : List Nat) (v : V) : NDA V := ⟨a.shape, fun k => if k = j then v else a.get k⟩
+
+/-- one statement; a rejected assignment leaves the session as it was (`none` = rejected) -/
+def Sess.step (isZero : V → Bool) (st : Sess V) : Stmt V → Sess V × Bool
+  | .set i src =>
+    if i < st.objs.length then
+      match asArray isZero (st.spec src) (st.obj i).mesh (st.obj i).nvdim with
+      | .error _ => (st, false)
+      | .ok a => ({ store := st.store ++ [a], objs := st.objs.set i { st.obj i with addr := st.store.length } }, true)
+    else (st, false)
+  | .upd i src =>
+    if i < st.objs.length then
+      match updateValues isZero (st.spec src) (st.obj i).mesh (st.obj i).nvdim with
+      | .error _ => (st, false)
+      | .ok a => ({ store := st.store ++ [a], objs := st.objs.set i { st.obj i with addr := st.store.length } }, true)
+    else (st, false)
+  | .new i src =>
+    if i < st.objs.length then
+      match updateValues isZero (st.spec src) (st.obj i).mesh (st.obj i).nvdim with
+      | .error _ => (st, false)
+      | .ok a => ({ store := st.store ++ [a], objs := st.objs ++ [{ st.obj i with addr := st.store.length }] }, true)
+    else (st, false)
+  | .poke b j v =>
+    if b < st.store.length then ({ st with store := st.store.set b (pokeNDA (st.buf b) j v) }, true) else (st, false)
+  | .fill b v =>
+    if b < st.store.length then ({ st with store := st.store.set b (NDA.const (st.buf b).shape v) }, true)
+    else (st, false)
+
+def Sess.run (isZero : V → Bool) (st : Sess V) (prog : List (Stmt V)) : Sess V :=
+  prog.foldl (fun s c => (s.step isZero c).1) st
 
 end
 
